@@ -175,4 +175,23 @@ static bool cstr_is(const struct cstr *s, const char *lit)          /* s == "lit
   if (s->n != k) return 0;
   return (k < 1 || s->d[0] == lit[0]) && (k < 2 || s->d[1] == lit[1]);
 }
+
+/* ---- FileAccess::read(pos, len) over a ghost file of g_flen bytes: returns exactly the bytes that exist
+        (std::vector<byte> of min(len, flen - pos) elements, heap-allocated so that reads past size() are caught) */
+struct dynvec { size_t n; byte *d; };
+static unsigned long g_flen;
+static byte g_dyn_store[64];      /* backing store: a vector of n bytes is the LAST n bytes of this object, so that
+                                     any access at or beyond size() leaves the object and is caught by the bounds check */
+static struct dynvec FileAccess_read_dyn(struct FileAccess *f, unsigned long pos, unsigned long len)
+{
+  struct dynvec r;
+  (void)f;
+  __CPROVER_assert(len <= (1ul << 20), "C07: no allocation request larger than 1 MiB is driven by sizes declared in the file");
+  __CPROVER_assert(len <= 64, "model: header-sized reads only");
+  r.n = pos >= g_flen ? 0 : (g_flen - pos < len ? g_flen - pos : len);
+  __CPROVER_havoc_object(g_dyn_store);          /* contents unconstrained */
+  r.d = r.n ? g_dyn_store + (64 - r.n) : (byte *)0;
+  return r;
+}
+static void bytes_copy7(char *dst, const byte *src) { unsigned i; for (i = 0; i < 7; ++i) dst[i] = (char)src[i]; }
 #endif
